@@ -68,6 +68,17 @@ def job_estimate(j):
     lib = get_lib(j['lib'])
     if j.get('fresh'):
         lib = GroupLibrary.Load(j['lib'])
+    if j.get('update_from'):
+        # this library object has ALREADY estimated the very same mapping, and was then merged into from another library
+        # (same data, wider ranges): the estimate made now reflects the library as it is now
+        lib = GroupLibrary.Load(j['lib'])
+        try:
+            with warnings.catch_warnings(record=True):
+                warnings.simplefilter('always')
+                lib.Estimate({n: c for n, c in j.get('mapping', [])}, 'thermochem')
+        except Exception:
+            pass
+        lib.Update(GroupLibrary.Load(j['update_from']))
     if j.get('predecomp'):
         try:
             lib.GetDescriptors(j['predecomp'])
@@ -144,8 +155,15 @@ def job_estimate(j):
             if j['dim'].get('elements'):
                 du['get_S_el'] = [call(est.get_S, T, u + '/K', S_elements=True) for T in j['Ts']]
                 du['get_G_el'] = [call(est.get_G, T, u, S_elements=True) for T in j['Ts']]
+            # the flag given explicitly as "not requested", in the spellings a caller may use
+            import numpy as _np
+            du['get_S_F'] = [call(est.get_S, T, u + '/K', S_elements=False) for T in j['Ts']]
+            du['get_G_F'] = [call(est.get_G, T, u, S_elements=0) for T in j['Ts']]
+            du['get_S_npF'] = [call(est.get_S, T, u + '/K', S_elements=_np.False_) for T in j['Ts']]
             d[u] = du
         res['dim'] = d
+        res['s_F'] = [call(est.get_SoR, T, S_elements=False) for T in j['Ts']]
+        res['g_F'] = [call(est.get_GoRT, T, S_elements=0) for T in j['Ts']]
         if j['dim'].get('elements'):
             res['s_el'] = [call(est.get_SoR, T, S_elements=True) for T in j['Ts']]
             res['g_el'] = [call(est.get_GoRT, T, S_elements=True) for T in j['Ts']]
